@@ -204,7 +204,7 @@ func (e *Exec) allocatedOrNil(st *State, r *Term) *Term {
 	if r.IsLit() {
 		return TTrue
 	}
-	return Or(Eq(r, IntLit(0)), Neq(App("rkind", SInt, r), IntLit(0)), Select(st.alloc, r))
+	return Or(Eq(r, IntLit(0)), Allocd(st.alloc, r))
 }
 
 // ---- constants ---------------------------------------------------------------
@@ -359,12 +359,8 @@ func (e *Exec) newObject(st *State, name string, t types.Type, init Val) *Term {
 	r := Const(freshName("r."+name), SInt)
 	freshRefs[r] = true
 	e.sol.DeclareConst(r)
-	e.assumeRaw(And(Gt(r, IntLit(0)), Eq(App("rkind", SInt, r), IntLit(0)), Not(Select(st.alloc, r))))
-	na := Const(freshName("alloc"), ArrSort(SBool))
-	constDefs[na] = Store(st.alloc, r, TTrue)
-	e.sol.DeclareConst(na)
-	e.assumeRaw(mk("=", SBool, na, Store(st.alloc, r, TTrue)))
-	st.alloc = na
+	st.alloc = Add(st.alloc, IntLit(1))
+	e.assumeRaw(And(Gt(r, IntLit(0)), Eq(App("rkind", SInt, r), IntLit(0)), Eq(App("birth", SInt, r), st.alloc)))
 	if t != nil {
 		if arr, ok := under(t).(*types.Array); ok && arr.Len() > 32 {
 			return r // contents unconstrained
